@@ -134,6 +134,12 @@ impl<'a, 'tcx> W<'a, 'tcx> {
                             if let hir::Node::LetStmt(ls) = tcx.parent_hir_node(hid) {
                                 if ls.pat.hir_id == hid && ls.els.is_none() {
                                     if let Some(init) = ls.init {
+                                        // a struct literal bound to an immutable local: rendered field by field so that
+                                        // `local.field` (and `self.field` in a method called on it) can be resolved
+                                        if let hir::ExprKind::Struct(_, fields, hir::StructTailExpr::None) = init.kind {
+                                            let fs: Vec<String> = fields.iter().map(|f| format!("{}:{}", f.ident.name, self.norm_expr(f.expr, depth + 1))).collect();
+                                            return format!("#S{{{}}}", fs.join(","));
+                                        }
                                         if matches!(init.kind, hir::ExprKind::Binary(..) | hir::ExprKind::Cast(..) | hir::ExprKind::Lit(..) | hir::ExprKind::Path(..) | hir::ExprKind::Field(..) | hir::ExprKind::MethodCall(..)) && !matches!(init.kind, hir::ExprKind::MethodCall(..)) || matches!(init.kind, hir::ExprKind::MethodCall(seg, ..) if seg.ident.name.as_str() == "len") {
                                             return self.norm_expr(init, depth + 1);
                                         }
@@ -159,7 +165,13 @@ impl<'a, 'tcx> W<'a, 'tcx> {
                 };
                 format!("{}{}{}", self.norm_expr(a, depth + 1), o, self.norm_expr(b, depth + 1))
             }
-            hir::ExprKind::Field(base, ident) => format!("{}.{}", self.norm_expr(base, depth + 1), ident.name),
+            hir::ExprKind::Field(base, ident) => {
+                let b = self.norm_expr(base, depth + 1);
+                if let Some(v) = struct_field(&b, ident.name.as_str()) {
+                    return v;
+                }
+                format!("{}.{}", b, ident.name)
+            }
             hir::ExprKind::MethodCall(seg, recv, args, _) => {
                 let a: Vec<String> = args.iter().map(|x| self.norm_expr(x, depth + 1)).collect();
                 format!("{}.{}({})", self.norm_expr(recv, depth + 1), seg.ident.name, a.join(","))
@@ -623,6 +635,35 @@ impl<'a, 'tcx> Visitor<'tcx> for W<'a, 'tcx> {
             self.emit(io);
         }
     }
+}
+
+/// value of `field` in a rendering `#S{a:x,b:y}` (top-level split)
+fn struct_field(s: &str, field: &str) -> Option<String> {
+    let inner = s.strip_prefix("#S{")?.strip_suffix('}')?;
+    let mut depth = 0i32;
+    let mut start = 0usize;
+    let bytes = inner.as_bytes();
+    let mut parts = Vec::new();
+    for (i, c) in bytes.iter().enumerate() {
+        match *c {
+            b'{' | b'(' | b'[' => depth += 1,
+            b'}' | b')' | b']' => depth -= 1,
+            b',' if depth == 0 => {
+                parts.push(&inner[start..i]);
+                start = i + 1;
+            }
+            _ => {}
+        }
+    }
+    parts.push(&inner[start..]);
+    for p in parts {
+        if let Some((k, v)) = p.split_once(':') {
+            if k == field {
+                return Some(v.to_string());
+            }
+        }
+    }
+    None
 }
 
 fn peel_blocks<'tcx>(mut e: &'tcx hir::Expr<'tcx>) -> &'tcx hir::Expr<'tcx> {
